@@ -3,6 +3,7 @@ package parser
 import (
 	"fmt"
 	"strings"
+	"unicode/utf8"
 
 	"github.com/yuin/goldmark/ast"
 	"github.com/yuin/goldmark/text"
@@ -184,7 +185,7 @@ func (s *linkParser) Parse(parent ast.Node, block text.Reader, pc Context) ast.N
 		maybeReference := block.Value(ssegment)
 		// CommonMark spec says:
 		//  > A link label can have at most 999 characters inside the square brackets.
-		if len(maybeReference) > 999 {
+		if utf8.RuneCount(maybeReference) > 999 {
 			ast.MergeOrReplaceTextSegment(last.Parent(), last, last.Segment)
 			_ = popLinkBottom(pc)
 			return nil
@@ -277,7 +278,7 @@ func (s *linkParser) parseReferenceLink(parent ast.Node, last *linkLabelState,
 	}
 	// CommonMark spec says:
 	//  > A link label can have at most 999 characters inside the square brackets.
-	if len(maybeReference) > 999 {
+	if utf8.RuneCount(maybeReference) > 999 {
 		return nil, true
 	}
 
